@@ -30,3 +30,28 @@ Print Assumptions C10_skip_continues.
 Theorem C10_F8_refuted : run_dmx 0 [] [wit_F8b] = Some wit_F8b_trace.
 Proof. vm_compute. reflexivity. Qed.
 Print Assumptions C10_F8_refuted.
+
+(* KNOWN FINDING F9: a repetition whose 3-byte section header straddles a packet boundary (a tightly packing multiplexer
+   puts it right behind the end of the previous section, with 1 or 2 bytes left in that packet; the pointer_field is valid)
+   is not merely dropped: the chain is reset and the remembered version forgotten (C10_F9_reset), so that the NEXT
+   repetition is applied again.  (The source marks the spot: "TODO: not enough bytes to read section header - implement
+   buffering".)  Witness: a 365-byte PMT three times, the second copy packed behind the first; the third is applied
+   again (second request with program 256 in the trace). *)
+Theorem C10_F9_reset : forall fz (IS CX EV : Type) inner (c : chain IS) (cx : CX) pk poff p T next,
+  pkt_payload pk = Ok (Some (poff, p :: T ++ next)) -> pkt_payload_unit_start_indicator pk = Ok true ->
+  length T = N.to_nat p -> (0 < length next < 3)%nat ->
+  spc_consume (table_cfg fz) IS CX EV inner c cx pk =
+  (do r1 <- (if Nat.ltb 0 (N.to_nat p) then sp_continue (table_cfg fz) IS CX EV inner c cx T else Ok (c, cx, []));
+   Ok (sp_reset (table_cfg fz) IS (fst (fst r1)), snd (fst r1), snd r1)).
+Proof. exact short_start_resets. Qed.
+Print Assumptions C10_F9_reset.
+
+Theorem C10_F9_forgets : forall fz (IS : Type) (c : chain IS),
+  dd_last_version (sp_reset (table_cfg fz) IS c) = None /\ bf_state (sp_reset (table_cfg fz) IS c) = Complete /\
+  in_state (sp_reset (table_cfg fz) IS c) = in_state c.
+Proof. exact reset_forgets. Qed.
+Print Assumptions C10_F9_forgets.
+
+Theorem C10_F9_refuted : run_dmx 0 [] [wit_F9] = Some wit_F9_trace.
+Proof. vm_compute. reflexivity. Qed.
+Print Assumptions C10_F9_refuted.
